@@ -426,7 +426,8 @@ Proof.
   destruct t as [w| | | | | | | | | | | |]; [|intros _; reflexivity ..].
   repeat match goal with |- _ -> (if ?c then _ else _) = _ => destruct c end;
     try (intros _; match goal with |- ?a = ?b => constr_eq a b; reflexivity end); intro Hn.
-  - unfold parse_remember in *. revert Hn. break_match; auto. intro Hn.
+  - unfold parse_remember in *. revert Hn.
+    break_match; try (intros _; match goal with |- ?a = ?b => constr_eq a b; reflexivity end). intro Hn.
     match goal with |- of_res ?f (parse_query true ?q) = _ => destruct (of_res_sim _ f _ _ (parse_query_sim q)) as [[k E]|E] end.
     + exfalso. eapply Hn; eauto.
     + symmetry; exact E.
